@@ -492,8 +492,9 @@ func (x *batchExec) postCb(ctx context.Context, s *flyt.SharedStore, items, resu
 	seq := x.begin(BEv{Kind: "post", Item: -1, CtxDone: ctx.Err() != nil})
 	x.mu.Lock()
 	x.postCalls++
-	x.postItems = append(x.postItems, items)
-	x.postRes = append(x.postRes, results)
+	// what post saw, frozen at the moment of the call (late writers must not change the record)
+	x.postItems = append(x.postItems, append([]flyt.Result(nil), items...))
+	x.postRes = append(x.postRes, append([]flyt.Result(nil), results...))
 	x.postStore = append(x.postStore, s)
 	x.postInflight = append(x.postInflight, x.inflight)
 	x.postStarted = append(x.postStarted, x.started)
